@@ -22,6 +22,9 @@ CLAIMED = {
  "C03": ("rapid property-based testing with metamorphic relations (append-invariance, prefix rejection at every cut point) and a differential extent oracle against the independent model",
          "For each accepted input: remainder is a suffix, consumed extent equals the model's, 5 appended strings leave value and consumed count unchanged, and every proper prefix of a completely consumed encoding is rejected (all cut points up to 1200 bytes). ~24k base inputs and ~2M parser calls per quick run.",
          "internal/model decoders give the declared extent; acceptance rule per entry point as in DESIGN 3.4.", "DESIGN.md 5/C03"),
+ "C04": ("rapid property-based testing (structured + extreme-field + arbitrary inputs) with reflection-driven method sweeps on every accepted value; exhaustive sweep of all 65,536 type codes; native coverage-guided fuzzing (thorough)",
+         "No exported parser/decoder/constructor panics or exceeds a 20 s (then 60 s) deadline on ~120k generated inputs per quick run (up to 140 KiB, counts/lengths at extremes, 1000-pair mappings), and every exported method of every accepted value (swept two levels deep by reflection, ~4M calls) returns; all 65,540 type codes x 14 type-taking functions x 4 data shapes enumerated completely. The hang clause is decided only as 'no call exceeded a generous wall deadline twice'.",
+         "Panics are caught per call by recover; the Go runtime and reflect are trusted. AddAddress (a mutator taking a caller-supplied pointer) is not called by the sweep; methods whose parameters have no generator are listed in the evidence notes.", "DESIGN.md 5/C04"),
 }
 checks = []
 for pid in ids:
